@@ -137,6 +137,14 @@ CHECKS["C15"] = dict(
     ref="DESIGN.md 5.C15",
 )
 
+CHECKS["C09"] = dict(
+    engine="symx+z3",
+    technique="bounded symbolic execution (symx/z3) of the real contextlib glue and fill_context recursion over solver-enumerated registration sequences on real ExitStack / AsyncExitStack / generator-based managers; oracle = construction log",
+    text="All registration sequences of length 0..3 (thorough 4) over 9 sync operations (enter_context / push of plain, generator-based, yield-from generator-based managers and a nested exit stack; push(function), push(bound method), callback) and, for AsyncExitStack, 5 async ones, held by a suspended generator or coroutine: one child per registration in order, obj identifies the registered object, sync/async kind, the registration method in the description, recursive unfolding of generator-based managers (inner_stack incl. their own contexts) and nested stacks. Generator-based managers observed exiting (async: suspended in the exit part; sync: exit part running and asking) and not exiting.",
+    note="LOW SOLVER LEVERAGE. push(manager) and enter_context(manager) are indistinguishable after registration (either name accepted). async_generator backport managers and trees deeper than 2 are outside.",
+    ref="DESIGN.md 5.C09",
+)
+
 NOT_APPLICABLE = {
     "C06": "Quantifies over interpreter bookkeeping (reference counts, object lifetime, crashes) behind a ctypes boundary; no value a solver can range over, and any symbolic engine perturbs the very refcounts measured (DESIGN.md 5.C06).",
     "C07": "OS-thread interleavings against raw-memory reads; depends on when CPython releases the GIL, not on Python-level data; needs a runtime schedule controller, a different technique family (DESIGN.md 5.C07).",
